@@ -96,7 +96,7 @@ func runCheck(prop, tier string, workers int, only string, noReplay bool) int {
 
 	// --- verdicts
 	exit := 0
-	outDir := filepath.Join(verifDir, "out", prop)
+	outDir := filepath.Join(scratchBase(), "out", prop)
 	os.RemoveAll(outDir)
 	os.MkdirAll(outDir, 0755)
 	var rp *Replayer
@@ -303,8 +303,8 @@ func writeEvidence(prop, tier string, ps *PropSpec, results []*HarnessResult, wa
 		"wall_s":      wall.Seconds(),
 		"violations":  nviol,
 	}
-	os.MkdirAll(filepath.Join(verifDir, "evidence"), 0755)
-	writeJSON(filepath.Join(verifDir, "evidence", prop+".json"), ev)
+	os.MkdirAll(filepath.Join(scratchBase(), "evidence"), 0755)
+	writeJSON(filepath.Join(scratchBase(), "evidence", prop+".json"), ev)
 }
 
 // ------------------------------------------------------------ native replay
@@ -449,4 +449,13 @@ func replayFile(prop, cex string) int {
 	}
 	fmt.Println("not reproduced")
 	return 0
+}
+
+// scratchBase: evidence and counterexamples go to /verif, except for experiments on scratch
+// copies of the repository (VERIF_REPO set), which must not clobber the real evidence.
+func scratchBase() string {
+	if os.Getenv("VERIF_REPO") != "" {
+		return filepath.Join("/var/tmp/verif-scratch", filepath.Base(repoDir))
+	}
+	return verifDir
 }
